@@ -88,6 +88,9 @@ type PairCfg struct {
 	// KeepaliveMs > 0: both endpoints run TCP keep-alive with that idle time and probe
 	// interval and a budget of 4 unanswered probes; a healthy idle connection must survive it
 	KeepaliveMs int     `json:"keepalive_ms,omitempty"`
+	// BindAddr: the client binds to its specific local address (not only to the
+	// port) before it connects
+	BindAddr bool `json:"bind_addr,omitempty"`
 	Prog        Program `json:"prog"`
 }
 
@@ -160,7 +163,11 @@ func (p *Pair) Establish(d time.Duration) string {
 	if err != nil {
 		return "client: " + err.String()
 	}
-	if err = p.C.EP.Bind(tcpip.FullAddress{Port: PairClientPort}, nil); err != nil {
+	bindTo := tcpip.FullAddress{Port: PairClientPort}
+	if p.Cfg.BindAddr {
+		bindTo.Addr = p.AddrA
+	}
+	if err = p.C.EP.Bind(bindTo, nil); err != nil {
 		return "client bind: " + err.String()
 	}
 	active := p.Cfg.ActiveISS
